@@ -50,7 +50,7 @@ class Hang(Exception):
 class C03(Machine):
     name = "c03"
     property_id = "C03"
-    runs = {"quick": 80000, "thorough": 3000000}
+    runs = {"quick": 80000, "thorough": 1500000}
     batch = 400
     rule = ("seeded start tree (1-30 leaves, all shape classes, all rooting states, length patterns, taxa on internal nodes, namespace "
             "larger than the leaf set) and 1-40 seeded mutator calls with all flag settings; distinct = (operation-name sequence, "
@@ -68,8 +68,9 @@ class C03(Machine):
 
     # ------------------------------------------------------------------
     def gen(self, rng, tier):
-        long_ = rng.random() < 0.3
-        n = rng.randint(1, 8) if not long_ else rng.randint(5, 30)
+        deep = tier == "thorough"
+        long_ = rng.random() < (0.5 if deep else 0.3)
+        n = rng.randint(1, 8) if not long_ else rng.randint(5, 45 if deep else 30)
         labs = gen.labels(rng, n, "plain")
         shape = rng.choice(gen.SHAPES)
         lengths = rng.choice(["none", "zero", "int", "float", "mixed_none", "dyadic", "float", "int"])
@@ -77,7 +78,7 @@ class C03(Machine):
         cfg = {"labels": labs, "extra_taxa": rng.randint(0, 3), "is_rooted": rng.choice([True, False, None]),
                "internal_taxa": rng.random() < 0.15, "shape": shape, "addr_seed": rng.getrandbits(32)}
         steps = []
-        for _ in range(rng.randint(1, 40) if long_ else rng.randint(1, 14)):
+        for _ in range(rng.randint(1, 90 if deep else 40) if long_ else rng.randint(1, 14)):
             fault = rng.random() < 0.08
             op = rng.choice(FAULT_OPS) if fault else rng.choice(OPS)
             steps.append({"op": op, "k": rng.randrange(10 ** 6), "k2": rng.randrange(10 ** 6), "mask": rng.getrandbits(32),
